@@ -1,9 +1,10 @@
 #!/bin/bash
-# replay.sh <replay file>: rebuild from /repo's working tree and re-run exactly that case.
+# replay.sh <replay file>: rebuild from the repository's working tree and re-run exactly that case.
 set -u
-. /verif/scripts/env.sh
+. "$(dirname "${BASH_SOURCE[0]}")/env.sh"
 B=$VERIF_ROOT/.build/replay.$$; W=$VERIF_ROOT/.work/replay.$$
 mkdir -p $B $W; trap 'rm -rf "$B" "$W"' EXIT
-(cd /repo/cmd/hranoprovod-cli && go build -tags verif -o $B/hr . ) || exit 3
-(cd /verif/harness && go build -o $B/vcheck ./cmd/vcheck ) || exit 3
+mkwork $B/go.work; export GOWORK=$B/go.work
+(cd $VERIF_REPO/cmd/hranoprovod-cli && go build -tags verif -o $B/hr . ) || exit 3
+(cd $VERIF_ROOT/harness && go build -o $B/vcheck ./cmd/vcheck ) || exit 3
 VERIF_HR=$B/hr VERIF_WORK=$W $B/vcheck replay "$1"
